@@ -185,3 +185,19 @@ def body_paths(stmts, limit=256):
     # conditions are interleaved with statements only through their order of first appearance; rules that need the
     # exact interleaving use `stmts` (execution order) and `conds` (decision order) separately
     return paths
+
+
+def canon_test_text(e):
+    """normalised text of a test with single comparisons written with the constant on the right (`0 < len(v)` reads
+    `len(v)>0`), spaces removed"""
+    import ast as _ast, copy as _copy
+    from .program import norm as _norm
+    FL = {_ast.Lt: _ast.Gt, _ast.Gt: _ast.Lt, _ast.LtE: _ast.GtE, _ast.GtE: _ast.LtE, _ast.Eq: _ast.Eq, _ast.NotEq: _ast.NotEq}
+
+    class T(_ast.NodeTransformer):
+        def visit_Compare(self, n):
+            self.generic_visit(n)
+            if len(n.ops) == 1 and type(n.ops[0]) in FL and isinstance(n.left, _ast.Constant) and not isinstance(n.comparators[0], _ast.Constant):
+                return _ast.copy_location(_ast.Compare(left=n.comparators[0], ops=[FL[type(n.ops[0])]()], comparators=[n.left]), n)
+            return n
+    return _norm(_ast.fix_missing_locations(T().visit(_copy.deepcopy(e)))).replace(' ', '')
